@@ -7,6 +7,8 @@
 //	gotrans mintsites <repo> <out.v>    every MintCoins/BurnCoins site with denom class and reachability (C15)
 //	gotrans blockers <repo> <out.v>     block pipeline order, error propagation and failure points (C18)
 //	gotrans determinism <repo> <out.v>  keeper fields, package variables, map ranges, time/rand/goroutine uses (C19)
+//	gotrans ownerflow <repo> <out.v>    per Msg handler: how the object it acts on is selected (signer-keyed / id + owner
+//	                                    comparison / inner handler / not object-scoped / unknown) (C17); also ownerflow.json
 package main
 
 import (
@@ -29,6 +31,8 @@ func main() {
 		err = genBlockers(os.Args[2], os.Args[3])
 	case "determinism": // C19: keeper fields, package variables, map ranges, nondeterminism sources, see determinism.go
 		err = genDeterminism(os.Args[2], os.Args[3])
+	case "ownerflow": // C17 owner-scoped part: object selection and signer flow of every handler, see ownerflow.go
+		err = genOwnerFlow(os.Args[2], os.Args[3])
 	default:
 		err = fmt.Errorf("unknown table %q", os.Args[1])
 	}
